@@ -767,6 +767,29 @@ def getTrainerConfig (env : Env) (a : Kvs) : Except String Cfg :=
         [("train_data_loader", tdl), ("val_data_loader", vdl), ("model_ckpt", ckpt), ("wandb", wb),
          ("optimizer", opt), ("lr_scheduler", lrs), ("early_stopping", es)])
 
+/-! ## `train()`: the public entry point
+
+`train(**kw)` passes every one of its parameters, by name, to exactly one of the three builders,
+wraps the results in `TrainingJobConfig(data_config=…, model_config=…, trainer_config=…)` and hands
+`to_sleap_nn_cfg()` (structured conversion + `throw_on_missing`) to `run_training`. -/
+
+def trainCfg (env : Env) (a : Kvs) : Except String Cfg :=
+  match getDataConfig .fixed env a with
+  | .error e => .error e
+  | .ok d =>
+  match getModelConfig env a with
+  | .error e => .error e
+  | .ok m =>
+  match getTrainerConfig env a with
+  | .error e => .error e
+  | .ok t =>
+  match mk env "TrainingJobConfig" [("data_config", d), ("model_config", m), ("trainer_config", t)] with
+  | .error e => .error e
+  | .ok r =>
+    if !(presetTypeOk env (arg a "backbone_config")) then .error "ValidationError"
+    else if hasMissing r then .error "MissingMandatoryValue"
+    else .ok r
+
 /-! ## `oneof` after construction: attribute assignment, then `which_oneof_attrib_name()` / `which_oneof()`
 
 Assigning an attribute of a `@define` class runs that field's validators only (there are none on
